@@ -573,6 +573,29 @@ func genQuo(r *hx.RNG, l hx.Limits) *opCase {
 		k.y = r.Finite(n2, le2)
 		k.x = r.Finite(n1, clampLE(target+le2, 0))
 		k.class = "range-end"
+	case shape < 62: // divisors that invite a shortcut (powers of ten, 1, 2, 5, ...), dividends aimed at the rounding position
+		p := int(minI64(r.Prec(0, l), 300))
+		k.p = int64(p)
+		xc := hx.CoefOf(r.RoundAimed(p))
+		yc := big.NewInt([]int64{1, 1, 1, 1, 2, 4, 5, 8, 25, 3}[r.Intn(10)])
+		yc.Mul(yc, oracle.Pow10(int64(r.Intn(3)*r.Range(0, 60)))) // (trailing zero digits and whole zero words in the mantissa)
+		yle := int64(r.Range(-40, 40))
+		if r.Chance(30) {
+			yle = int64(r.Range(-1000000000, 1000000000))
+		}
+		var xle int64
+		switch r.Intn(4) {
+		case 0: // the dividend itself at the top / bottom of the range
+			xle = []int64{oracle.MaxExp, oracle.MinExp}[r.Intn(2)]
+		case 1: // the quotient at an end of the range
+			xle = []int64{oracle.MaxExp, oracle.MinExp}[r.Intn(2)] + int64(r.Range(-3, 3)) + yle
+		default:
+			xle = yle + int64(r.Range(-60, 60))
+		}
+		xle = clampLE(xle, 0)
+		k.x = oracle.Val{Form: oracle.Finite, Neg: r.Bool(), Coef: xc, Exp: xle - oracle.Digits(xc)}
+		k.y = oracle.Val{Form: oracle.Finite, Neg: r.Bool(), Coef: yc, Exp: clampLE(yle, 0) - oracle.Digits(yc)}
+		k.class = "simple-divisor"
 	case shape < 75: // near-equal leading words: quotient-digit correction
 		n2 := r.Range(20, 200)
 		v := hx.CoefOf(r.Digits(n2))
